@@ -199,9 +199,11 @@ func fsmApplyAdd(c *Ctx, rule string, applyAdd *ssa.Function) {
 			if al, ok := t.Args[0].V.(*ssa.Alloc); ok && namedIs(deref(al.Type()), pkgConsensus, "VersionMetadata") {
 				bf := p.AllocFields(t.Args[0])
 				if len(bf["PreviousVersion"]) == 1 && len(bf["NewVersion"]) == 1 {
-					pt, nt := bf["PreviousVersion"][0], bf["NewVersion"][0]
+					pt, nt := p.UpParam(bf["PreviousVersion"][0]), bf["NewVersion"][0]
 					prev, nw = pt.String(), nt.String()
-					okMD = pt.IsField("BalloonVersion", func(b *Term) bool { return b.IsField("state", isParam(applyAdd, 0)) }) && nt.IsField("BalloonVersion", isParam(applyAdd, stateI))
+					okMD = pt.IsField("BalloonVersion", func(b *Term) bool {
+						return b.IsField("state", func(r *Term) bool { return r.Strip().Op == "param" && r.Strip().Idx == 0 })
+					}) && nt.IsField("BalloonVersion", isParam(applyAdd, stateI))
 				}
 			}
 		}
